@@ -52,15 +52,26 @@ Section LeafMap.
     destruct k as [|k]; cbn [pw_sel map_sel]; [apply Hf | apply IH].
   Qed.
 
+  Lemma enc_list_leaf p : forall l, enc_list (lf p) l = enc_list (enc_prim p) (map (F p) l).
+  Proof. induction l as [|x l IH]; cbn [enc_list map]; [reflexivity|]. rewrite Hlf, IH. reflexivity. Qed.
+
+  Lemma pm_array e l buf off loop loop' : loop = loop' ->
+    pw_array Q lf e l buf off loop = pw_array Q enc_prim e (map (M e) l) buf off loop'.
+  Proof.
+    intros ->. unfold pw_array. destruct e as [p| | |]; try reflexivity. unfold M. cbn [py_array_kind].
+    change (map (map_prims F (TPrim p)) l) with (map (F p) l).
+    destruct p as [|w s|w s|w s|w]; try reflexivity; try (destruct (py_std_w w); [|reflexivity]); rewrite enc_list_leaf; reflexivity.
+  Qed.
+
   Theorem pm_all : forall t, Pm t.
   Proof.
     induction t as [p|e n IHe|e c IHe|u fs ext H] using ty_nested_ind; unfold Pm; intros v buf off.
     - cbn [pw_body]. unfold M. cbn [map_prims]. apply pw_prim_leaf.
     - unfold M. destruct v; cbn [pw_body map_prims]; try reflexivity. rewrite map_length.
-      destruct (length l =? n); [|reflexivity]. apply pm_list. apply pm_body_to_field. exact IHe.
+      destruct (length l =? n); [|reflexivity]. apply pm_array. apply pm_list. apply pm_body_to_field. exact IHe.
     - unfold M. destruct v; cbn [pw_body map_prims]; try reflexivity. rewrite map_length.
       destruct (c <? length l); [reflexivity|].
-      destruct (p_set Q buf off _) as [[b o]|err]; cbn [bind]; [|reflexivity]. apply pm_list. apply pm_body_to_field. exact IHe.
+      destruct (p_set Q buf off _) as [[b o]|err]; cbn [bind]; [|reflexivity]. apply pm_array. apply pm_list. apply pm_body_to_field. exact IHe.
     - assert (Hf : Forall Pmf fs).
       { rewrite Forall_forall in *. intros f Hin. apply pm_body_to_field. apply H. exact Hin. }
       unfold M. destruct u, v; cbn [pw_body map_prims]; try reflexivity.
@@ -74,11 +85,11 @@ Lemma py_leaf_void w v : py_leaf (PVoid w) v = v.
 Proof. reflexivity. Qed.
 
 (* ---- the Python serialization refinement with the explicit leaf, from the two Serializer laws ---- *)
-Theorem py_walk_ser_pre_refines_on : forall Q u fs ext v cap, add_law Q (8 * cap) -> hdr_law Q (8 * cap) ->
+Theorem py_walk_ser_pre_refines_on : forall Q u fs ext v cap, add_law Q (8 * cap) -> hdr_law Q (8 * cap) -> bulk_law Q (8 * cap) ->
   wf_ty (TComp u fs ext) = true -> bmax (TComp u fs ext) <= 8 * cap ->
   py_walk_ser Q py_enc_prim (TComp u fs ext) v cap = ser_spec (TComp u fs ext) (py_pre (TComp u fs ext) v) cap.
 Proof.
-  intros Q u fs ext v cap Ha Hh Hwf Hge.
-  rewrite <- (py_walk_ser_refines_on Q u fs ext (py_pre (TComp u fs ext) v) cap Ha Hh Hwf Hge).
+  intros Q u fs ext v cap Ha Hh Hbk Hwf Hge.
+  rewrite <- (py_walk_ser_refines_on Q u fs ext (py_pre (TComp u fs ext) v) cap Ha Hh Hbk Hwf Hge).
   unfold py_walk_ser. rewrite (pm_all Q py_enc_prim py_leaf py_enc_prim_spec py_leaf_void). reflexivity.
 Qed.
